@@ -82,6 +82,11 @@ def cut (sep : Char) : Bytes → Bytes × Bytes × Bool
     let r := cut sep t
     (c :: r.1, r.2.1, r.2.2)
 
+/-- `strings.LastIndexByte(s, sep)` as a split: what stands before the last `sep` and what after it; `none`: no `sep` -/
+def cutLast (sep : Char) (s : Bytes) : Option (Bytes × Bytes) :=
+  let r := cut sep s.reverse
+  if r.2.2 then some (r.2.1.reverse, r.1.reverse) else none
+
 /-- `strings.Split(s, sep)` for a one-byte separator -/
 def splitOn (sep : Char) : Bytes → List Bytes
   | [] => [[]]
@@ -269,6 +274,30 @@ structure URLv where
   rawPath  : Bytes
   rawQuery : Bytes
 deriving Repr, DecidableEq
+
+/-! ### `URL.Hostname()` and `URL.Port()` (`net/url`), reachable as `Request.URL.Hostname()` / `Request.URL.Port()` in CEL
+expressions and as `{{ .Request.URL.Hostname }}` / `{{ .Request.URL.Port }}` in templates -/
+
+def isDigitA (c : Char) : Bool := '0' ≤ c && c ≤ '9'
+
+/-- `host[1 : len(host)-1]` if the host is written in brackets (an IPv6 literal) -/
+def stripBrackets (h : Bytes) : Bytes :=
+  if h.head? = some '[' && h.getLast? = some ']' then (h.drop 1).dropLast else h
+
+/-- `splitHostPort` of `net/url`: the part after the last colon is the port if it consists of digits only
+    (`validOptionalPort`; no digit at all is allowed: `name:` has the empty port), whatever the digits are — a port
+    that is the default one of the scheme (`:80`, `:443`) is a port like any other; brackets around the host are
+    removed -/
+def splitHostPort (hostPort : Bytes) : Bytes × Bytes :=
+  match cutLast ':' hostPort with
+  | some (h, p) => if p.all isDigitA then (stripBrackets h, p) else (stripBrackets hostPort, [])
+  | none => (stripBrackets hostPort, [])
+
+/-- `URL.Hostname()` -/
+def URLv.hostname (u : URLv) : Bytes := (splitHostPort u.host).1
+
+/-- `URL.Port()` -/
+def URLv.port (u : URLv) : Bytes := (splitHostPort u.host).2
 
 /-- the mutable part of a `heimdall.Request`: what `Request()` allocates -/
 structure ReqObj where
@@ -488,6 +517,7 @@ def Ctx.current (c : Ctx) : ReqObj := if c.caches then c.cell.getD c.fresh else 
 
 inductive Probe where
   | method | scheme | host | path | query
+  | hostname | port                 -- `Request.URL.Hostname()`, `Request.URL.Port()`
   | capture (name : Bytes)
   | header (name : Bytes)
   | cookie (name : Bytes)
@@ -512,6 +542,8 @@ def Probe.tmpl (o : ReqObj) (F : Funcs) : Probe → Bytes
   | .method => o.method
   | .scheme => o.url.scheme
   | .host => o.url.host
+  | .hostname => o.url.hostname
+  | .port => o.url.port
   | .path => o.url.path
   | .query => o.url.rawQuery
   | .capture n => (lookup n (o.captures.getD [])).getD []
@@ -643,6 +675,35 @@ def ReqObj.toReqView (o : ReqObj) : ReqView :=
 
 def toBytesPairs (l : List (String × String)) : List (Bytes × Bytes) := l.map fun kv => (kv.1.toList, kv.2.toList)
 
+/-! ### `serve.<service>.buffer_limit` and the `net/http` server in front of the handler chain -/
+
+/-- `serve.decision.buffer_limit` / `serve.proxy.buffer_limit` in bytes (`read` and `write`; the defaults are 4 KiB
+    each, 0: not configured); the Envoy gRPC service takes the sizes of its connection buffers from the block of the
+    decision service -/
+structure Limits where
+  read  : Nat := 0
+  write : Nat := 0
+deriving Repr, DecidableEq
+
+/-- How many bytes the `net/http` server of the decision and of the proxy service reads for the request line and the
+    header block of one request: `http.Server.MaxHeaderBytes = buffer_limit.read` (`decision/service.go`,
+    `proxy/service.go`; 0: `http.DefaultMaxHeaderBytes`, 1 MiB) plus the 4096 bytes of slack `net/http` adds
+    (`initialReadLimitSize`). Once the header block has been read the limit is lifted (`setInfiniteReadLimit`): nothing
+    bounds the body. -/
+def headerBudget (l : Limits) : Nat := (if l.read = 0 then 1048576 else l.read) + 4096
+
+/-- the number of bytes of the request line and the header block of the message, blank line included:
+    `METHOD SP target SP HTTP/1.1 CRLF`, `Host: host CRLF`, `name: value CRLF` …, `CRLF` — the body is not part of it -/
+def LReq.headLength (lr : LReq) : Nat :=
+  lr.method.length + 1 + lr.target.length + 11 + (6 + lr.host.length + 2) +
+  lr.headers.foldr (fun l n => l.1.length + 2 + l.2.length + 2 + n) 0 + 2
+
+/-- Does the server in front of the handler chain hand the request to the chain? The servers of the decision and the
+    proxy service answer a request whose request line and header block exceed the budget themselves
+    (`431 Request Header Fields Too Large`; no middleware, no rule runs); the gRPC server of the Envoy service receives
+    the request as a message (its own limit, 4 MiB per message, is not configured by `buffer_limit`). -/
+def reachesChain (l : Limits) (ep : EP) (lr : LReq) : Bool := ep = .envoy || lr.headLength ≤ headerBudget l
+
 structure Cfg where
   repo       : Repo
   hasDefault : Bool
@@ -656,6 +717,11 @@ structure Cfg where
       model reads this field — that *is* the model of the code's behaviour, and the correspondence check varies the
       level to validate it -/
   logLevel   : LogLevel := .disabled
+  /-- `serve.<service>.buffer_limit`. Only the admission of the request by the `net/http` server (`reachesChain`, `listen`)
+      looks at it: the middleware chains, the request contexts (`Body()` reads the body to its end) and the pipeline
+      do not — no other function of the model reads this field, and the correspondence check varies the limits
+      (with bodies far longer than `read`) to validate that -/
+  limits     : Limits := {}
 
 def Cfg.pipeOf (cfg : Cfg) (key : String × String) : Pipe :=
   ((cfg.pipes.find? fun kv => kv.1 == key).map (·.2)).getD { authz := [], fins := [] }
@@ -783,5 +849,10 @@ def mkCtx (I : Impl) (D : Decoder) (level : LogLevel) (packAsBytes : Bool) (ep :
 def serve (I : Impl) (cfg : Cfg) (packAsBytes : Bool) (ep : EP) (lr : LReq) : Option Outcome :=
   (mkCtx I cfg.D cfg.logLevel packAsBytes ep lr).map fun e =>
     finalize cfg.respond e.client e.payload ep (execute cfg e.funcs e.ctx)
+
+/-- one logical request sent to the listener of one entry point: `none` = the `net/http` server refuses the message
+    because of the size of its head (431), otherwise what the handler chain answers (`serve`) -/
+def listen (I : Impl) (cfg : Cfg) (packAsBytes : Bool) (ep : EP) (lr : LReq) : Option (Option Outcome) :=
+  if reachesChain cfg.limits ep lr then some (serve I cfg packAsBytes ep lr) else none
 
 end Heimdall.EntryView
